@@ -105,6 +105,18 @@ fn witness_cases(base: &Req, s: &Setup, thorough: bool) -> Vec<Case> {
             ci.path.resize(n, big(3));
             v.push(mk(&format!("element-vector-length-{n}"), &ci, witness_bytes(&ci), false));
         }
+        // every pair of (element count, direction count), also pairs whose totals compensate
+        for n in [0usize, 1, 19, 20, 21, 39, 40] {
+            for m in [0usize, 1, 19, 20, 21, 39, 40] {
+                if n == 20 && m == 20 {
+                    continue;
+                }
+                let mut ci = s.ci.clone();
+                ci.path.resize(n, big(3));
+                ci.bits.resize(m, big(0));
+                v.push(mk(&format!("vector-lengths-{n}-{m}"), &ci, witness_bytes(&ci), false));
+            }
+        }
         for lvl in [0usize, 10, 19] {
             for val in [2u64, 3, 255] {
                 let mut ci = s.ci.clone();
